@@ -314,6 +314,9 @@ def main():
     seed = int(os.environ.get("VERIF_SEED", "1"))
     t0 = time.time()
     legs = [Leg(prop, h, fl, (rq if tier == "quick" else rt), seed, tier) for (h, fl, rq, rt) in PROPS[prop]]
+    only = os.environ.get("VERIF_ONLY_FLAVOURS")   # development aid (mutant sweeps): restrict to some legs, e.g. "A"
+    if only and any(l.flavour in only.split(",") for l in legs):
+        legs = [l for l in legs if l.flavour in only.split(",")]
     scale = float(os.environ.get("VERIF_RUNS_SCALE", "1"))
     for l in legs:
         l.runs = max(1, int(l.runs * scale))
